@@ -7,5 +7,5 @@ import (
 )
 
 func TestReplay(t *testing.T) {
-	vrt.ReplayMain(map[string]func(){"Harness_value": Harness_value, "Harness_text": Harness_text, "Harness_text_quoted": Harness_text_quoted, "Harness_text_raw": Harness_text_raw})
+	vrt.ReplayMain(map[string]func(){"Harness_value": Harness_value, "Harness_text": Harness_text, "Harness_text_quoted": Harness_text_quoted, "Harness_text_raw": Harness_text_raw, "Harness_jsonish": Harness_jsonish})
 }
